@@ -145,10 +145,11 @@ pub struct BlockHandleT { pub st: StatsT }
 impl BlockHandleT { pub fn statistics(&self) -> &StatsT { &self.st } }
 pub struct BlockManagerT { }
 impl BlockManagerT { #[verifier::external_body] pub fn block(&self, id: BlockId) -> BlockHandleT { unimplemented!() } }
-//@region foyer-storage/src/engine/block/flusher.rs :: impl~^impl<K, V, P> Runner<K, V, P>/fn submit_io_task name=tombstone_future start=/let tombstone_log = / body=1 rules=drop-tracing,de-async,iter-arg sub=@for TombstoneInfo \{ tombstone: _, stats \} in tombstone_infos \{@for verif_ti in tombstone_infos { let stats = verif_ti.stats;@
+//@region foyer-storage/src/engine/block/flusher.rs :: impl~^impl<K, V, P> Runner<K, V, P>/fn submit_io_task name=tombstone_future start=/let tombstone_log = / body=1 rules=drop-tracing,de-async,iter-arg presubopt=@(?s)tombstone_infos\s*\.iter\(\)\s*\.map\(\|info\| \(info\.tombstone\.hash, info\.tombstone\.sequence\)\),?@verif_tombstone_keys(&tombstone_infos)@ sub=@for TombstoneInfo \{ tombstone: _, stats \} in tombstone_infos \{@for verif_ti in tombstone_infos { let stats = verif_ti.stats;@
 //@head
-fn tombstone_future(tombstone_log: Option<LogT>, tombstone_infos: Vec<TombstoneInfo>, block_manager: &BlockManagerT) -> (r: core::result::Result<(), Error>)
+fn tombstone_future(tombstone_log: Option<LogT>, tombstone_infos: Vec<TombstoneInfo>, block_manager: &BlockManagerT, indexer: &mut IndexerT) -> (r: core::result::Result<(), Error>)
     requires tombstone_log matches Some(l) ==> l.must@ == toms_of(tombstone_infos@),
+    ensures final(indexer).log@ == old(indexer).log@, // @label the_tombstone_future_leaves_the_index_alone_placeholders_go_only_after_the_whole_io_task
 //@loop 1 iter=it
             invariant
                 it.snapshot@.remaining().len() == tombstone_infos@.len(),
